@@ -281,6 +281,11 @@ theorem absRun_sound (facts : Facts) (l : List (String × List Held × Bool))
     simp only [absRun, Option.some.injEq] at h
     subst h
     exact ⟨discPath_nil, List.mem_singleton.2 rfl⟩
+  | access =>
+    intro outs h
+    simp only [absRun, Option.some.injEq] at h
+    subst h
+    exact ⟨discPath_nil, List.mem_singleton.2 rfl⟩
   | seqNormal _ _ iha ihb =>
     intro outs h
     simp only [absRun] at h
